@@ -4389,7 +4389,9 @@ def substitutions_applied(
         or (path := tree.find_node(orig)) is None
         or (
             substituted_tree.is_valid_path(path)
-            and substituted_tree.get_subtree(path).structurally_equal(subst)
+            # (`structurally_equal` is recursive; trees can be very deep.)
+            and substituted_tree.get_subtree(path).structural_hash()
+            == subst.structural_hash()
         )
         for orig, subst in solution.items()
     )
